@@ -421,7 +421,9 @@ func (se *SessionExecutor) ExecuteCommand(cmd byte, data []byte) Response {
 		values := make([]byte, len(data))
 		copy(values, data)
 		if err := se.handleStmtSendLongData(values); err != nil {
-			return CreateErrorResponse(se.status, err)
+			// the protocol has no reply to this command, not even an error: anything written here
+			// would be taken by the client for the reply to its next command
+			log.Warn("send long data error, connection id: %d, err: %v", se.session.c.GetConnectionID(), err)
 		}
 		return CreateNoopResponse()
 	case mysql.ComStmtReset:
